@@ -221,7 +221,7 @@ func TestVerif_C09_SignedTokens(t *testing.T) {
 		group := rapid.SampledFrom(groupNames).Draw(t, "group")
 		host := rapid.SampledFrom([]string{"", "galene.example.org", "galene.example.org:8443"}).Draw(t, "canonicalHost")
 		factors := []string{"sig-notinset", "alg-none", "alg-confuse", "kid-mismatch", "exp-missing", "exp-past", "nbf-future", "iat-future",
-			"host", "path-sibling", "path-ancestor-nosub", "path-noslash", "path-descendant", "badkey-in-set", "aud-split", "alg-other-hmac", "alg-other-hmac"}
+			"host", "path-sibling", "path-ancestor-nosub", "path-noslash", "path-descendant", "badkey-in-set", "aud-split", "alg-other-hmac", "alg-other-hmac", "path-above-groups"}
 		nbreak := rapid.SampledFrom([]int{0, 0, 1, 1, 1, 2}).Draw(t, "nbreak")
 		broken := map[string]bool{}
 		for i := 0; i < nbreak; i++ {
@@ -316,6 +316,12 @@ func TestVerif_C09_SignedTokens(t *testing.T) {
 		}
 		if broken["path-noslash"] {
 			pth = strings.TrimSuffix(pth, "/")
+		}
+		if broken["path-above-groups"] {
+			// an audience that names the server (or something above the groups' namespace), not a group, with
+			// include-subgroups: a string prefix of every group's URL, but not a group
+			pth = rapid.SampledFrom([]string{"/", "/", "", "/group", "/g/", "//"}).Draw(t, "aboveGroups")
+			incl = true
 		}
 		auds := []string{"https://" + audHost + pth}
 		if broken["aud-split"] {
